@@ -22,7 +22,7 @@
 (***************************************************************************)
 EXTENDS Render, MC_Lex_P
 
-VARIABLES vSeq, vRun   \* vSeq: sequence of <<separator, vocabulary index>>; vRun: the model's run on its text
+VARIABLES vPre, vSeq, vRun   \* vPre: a valid prefix text; vSeq: sequence of <<separator, vocabulary index>>; vRun: the model's run
 
 Wordish(n) == Vocab[n].kd \notin {"op", "plus", "other"} \/ Vocab[n].t \in {"AND", "OR", "WITH"}
 SepsFor(seq, n) == IF Len(seq) = 0 THEN {""}
@@ -34,40 +34,45 @@ TextOf(seq, n) == IF n > Len(seq) THEN "" ELSE seq[n][1] \o Vocab[seq[n][2]].t \
 
 (* ----- lexeme-level reading -------------------------------------------- *)
 \* returns [toks, err]; off = 0-based offset of lexeme n's first character
-RECURSIVE Decl(_, _, _, _)
-Decl(seq, n, off, toks) ==
+RECURSIVE Decl(_, _, _, _, _)
+Decl(pre, seq, n, off, toks) ==
   IF n > Len(seq) THEN [toks |-> toks, err |-> NoErr]
   ELSE LET sep  == seq[n][1]
            lx   == Vocab[seq[n][2]]
            at   == off + Len(sep)                  \* offset of the lexeme text
            nxt  == at + Len(lx.t)
            nextIsGluedPlus == n < Len(seq) /\ seq[n + 1][1] = "" /\ Vocab[seq[n + 1][2]].kd = "plus"
-           go(ts) == Decl(seq, n + 1, nxt, toks \o ts)
+           go(ts) == Decl(pre, seq, n + 1, nxt, toks \o ts)
+           afterSpace == Len(sep) > 0 \/ (n = 1 /\ Len(pre) > 0 /\ CharAt(pre, Len(pre)) = " ")
        IN
        CASE lx.kd \in {"plainL", "lowerL", "listedOnly", "listedLater", "unlistedOnly", "depPlain"} -> go(<<Tok("L", lx.c)>>)
          [] lx.kd = "depFold" -> IF nextIsGluedPlus
-                                 THEN Decl(seq, n + 2, nxt + 1, toks \o <<Tok("L", lx.c \o "-or-later")>>)
+                                 THEN Decl(pre, seq, n + 2, nxt + 1, toks \o <<Tok("L", lx.c \o "-or-later")>>)
                                  ELSE go(<<Tok("L", lx.c)>>)
          [] lx.kd = "unlistedLater" -> go(<<Tok("L", lx.c), Tok("+", "+")>>)
          [] lx.kd = "exc" -> go(<<Tok("E", lx.c)>>)
          [] lx.kd = "LR" -> go(<<Tok("LR", lx.c)>>)
          [] lx.kd = "DR" -> go(<<Tok("DR", lx.c)>>)
          [] lx.kd = "op" -> go(<<Tok(lx.t, lx.t)>>)
-         [] lx.kd = "plus" -> IF Len(sep) > 0 THEN [toks |-> toks, err |-> MkErr("space-before-plus", 0, "")]
+         [] lx.kd = "plus" -> IF afterSpace THEN [toks |-> toks, err |-> MkErr("space-before-plus", 0, "")]
                               ELSE go(<<Tok("+", "+")>>)
          [] lx.kd \in {"unknown", "lowerop"} -> [toks |-> toks, err |-> MkErr("unknown-id", at, lx.t)]
          [] lx.kd \in {"bareLR", "bareDR"} -> [toks |-> toks, err |-> MkErr("missing-id", nxt, "")]
          [] lx.kd = "other" -> [toks |-> toks, err |-> MkErr("missing-id", at, "")]
 
-RunOf(seq) == LET txt == TextOf(seq, 1) IN
-              [text |-> txt, lex |-> Lex(txt), decl |-> Decl(seq, 1, 0, <<>>), p |-> Parse(txt)]
+RunOf(pre, seq) == LET txt == pre \o TextOf(seq, 1) IN
+                   [text |-> txt, lex |-> Lex(txt), decl |-> Decl(pre, seq, 1, Len(pre), Lex(pre).toks), p |-> Parse(txt)]
 
-Init == vSeq = <<>> /\ vRun = RunOf(<<>>)
+Init == vPre \in {Prefixes[n] : n \in DOMAIN Prefixes} /\ vSeq = <<>> /\ vRun = RunOf(vPre, <<>>)
 Next == /\ Len(vSeq) < MaxLex
         /\ \E n \in DOMAIN Vocab : \E sp \in SepsFor(vSeq, n) :
               /\ vSeq' = Append(vSeq, <<sp, n>>)
-              /\ vRun' = RunOf(vSeq')
-Spec == Init /\ [][Next]_<<vSeq, vRun>>
+              /\ vRun' = RunOf(vPre, vSeq')
+        /\ vPre' = vPre
+Spec == Init /\ [][Next]_<<vPre, vSeq, vRun>>
+
+\* prefixes are lexically clean texts (they may be syntactically incomplete, e.g. end in "AND " or "(")
+ASSUME \A n \in DOMAIN Prefixes : Lex(Prefixes[n]).err.kind = "none" /\ LexAmb(Lex(Prefixes[n])) = {}
 
 ScanInv == /\ vRun.lex.err = vRun.decl.err
            /\ vRun.lex.err.kind = "none" => vRun.lex.toks = vRun.decl.toks
